@@ -1029,4 +1029,66 @@ func sfprobes(in json.RawMessage, res *vh.Result) error {
 	return nil
 }
 
-func main() { vh.Main(map[string]vh.Mode{"replay": replay, "probes": probes, "sfprobes": sfprobes}) }
+// ssrecover: a server-side subscription asked to recover from a position (WithRecoverSince). The subscribe push has no
+// publications field, so whatever offset it announces is the subscribe position: every offset after it up to the
+// last delivered one must be delivered (C01).
+func ssrecover(in json.RawMessage, res *vh.Result) error {
+	env, err := cl.NewEnv(centrifuge.Config{LogLevel: centrifuge.LogLevelNone})
+	if err != nil {
+		return err
+	}
+	if err := env.Run(); err != nil {
+		return err
+	}
+	defer env.Close()
+	for since := 0; since <= 3; since++ {
+		ch := fmt.Sprintf("sr%d_%d", vh.Seed(), since)
+		var epoch string
+		for k := 1; k <= 3; k++ {
+			pr, _ := env.Node.Publish(ch, []byte(strconv.Itoa(k)), centrifuge.WithHistory(10, time.Minute))
+			epoch = pr.Epoch
+		}
+		conn, _ := env.NewConn("u", centrifuge.ProtocolTypeJSON)
+		conn.Connect()
+		if err := conn.Client.Subscribe(ch, centrifuge.WithRecovery(true), centrifuge.WithRecoverSince(&centrifuge.StreamPosition{Offset: uint64(since), Epoch: epoch})); err != nil {
+			res.Drift("C01", "server-side recover subscribe: "+err.Error(), nil)
+			continue
+		}
+		_, _ = env.Node.Publish(ch, []byte("4"), centrifuge.WithHistory(10, time.Minute))
+		conn.Barrier(2 * time.Second)
+		pos := -1
+		var offs []int
+		for _, r := range conn.Frames() {
+			if r.Push != nil && r.Push.Channel == ch {
+				if r.Push.Subscribe != nil {
+					pos = int(r.Push.Subscribe.Offset)
+				}
+				if r.Push.Pub != nil {
+					offs = append(offs, int(r.Push.Pub.Offset))
+				}
+			}
+		}
+		replay := map[string]any{"probe": "server-side subscribe with RecoverSince", "since": since, "push_offset": pos, "delivered": offs}
+		if pos >= 0 && len(offs) > 0 {
+			have := map[int]bool{}
+			for _, o := range offs {
+				have[o] = true
+			}
+			for o := pos + 1; o <= offs[len(offs)-1]; o++ {
+				if !have[o] {
+					res.Violate("C01", "gap:server-side-recover-since", fmt.Sprintf("server-side subscribe recovering since offset %d: the subscribe push announces offset %d, then offset(s) %v are pushed; offset %d was never delivered", since, pos, offs, o), replay)
+					break
+				}
+			}
+		}
+		res.Distinct(fmt.Sprintf("ssrecover-%d", since))
+		res.Sample(replay)
+		res.Done(1, 1)
+		conn.Client.Disconnect()
+	}
+	return nil
+}
+
+func main() {
+	vh.Main(map[string]vh.Mode{"replay": replay, "probes": probes, "sfprobes": sfprobes, "ssrecover": ssrecover})
+}
